@@ -32,7 +32,7 @@ def cases(tier, seed):
     n = 80 if tier == "quick" else 2400
     for k in range(n):
         out.append(dict(kind="perf", nsurf=int(rng.choice([1, 2, 3])), sym=[True, False, "mixed"][k % 3], user_sref=bool((k // 3) % 2), seed=int(rng.integers(1 << 30)),
-                        aero_only=bool(k % 4 == 3), lw=bool(k % 5 == 0)))
+                        aero_only=bool(k % 4 == 3), lw=bool(k % 5 == 0), units=bool(k % 3 == 1)))
     n = 8 if tier == "quick" else 120
     for k in range(n):
         nsurf = int(rng.choice([1, 2]))
@@ -55,6 +55,7 @@ def cases(tier, seed):
 
 def run_perf(c, o):
     import openmdao.api as om
+    from openmdao.utils.units import convert_units
     from openaerostruct.functionals.total_performance import TotalPerformance
     from openaerostruct.functionals.total_aero_performance import TotalAeroPerformance
 
@@ -78,7 +79,12 @@ def run_perf(c, o):
         for k, v in d.items():
             if c["aero_only"] and k in ("structural_mass", "cg_location"):
                 continue
-            ivc.add_output(name + "_" + k, val=v, units=un[k])
+            u_ = un[k]
+            if c.get("units") and u_ is not None:
+                # the same SI value supplied through an input declared in another unit (OpenMDAO converts it back)
+                alt_ = {"m**2": "ft**2", "kg": "lbm", "m": "ft", "N": "lbf"}[u_]
+                v, u_ = convert_units(np.asarray(v, float), u_, alt_), alt_
+            ivc.add_output(name + "_" + k, val=v, units=u_)
     fl = dict(v=10 ** rng.uniform(1, 2.5), rho=10 ** rng.uniform(-1, 0.2), CT=10 ** rng.uniform(-5, -3.5), R=10 ** rng.uniform(5, 7.2),
               speed_of_sound=rng.uniform(280, 345), Mach_number=rng.uniform(0.2, 0.9), W0=10 ** rng.uniform(2, 5.3), load_factor=float(rng.choice([1.0, 2.5, rng.uniform(0.5, 3)])),
               empty_cg=rng.uniform(-2, 2, 3), cg=rng.uniform(-2, 2, 3), S_ref_total=10 ** rng.uniform(0.5, 2.7))
@@ -109,7 +115,11 @@ def run_perf(c, o):
             continue
         if not c["aero_only"] and k == "cg":
             continue
-        ivc.add_output(k, val=v, units=un[k])
+        u_ = un[k]
+        if c.get("units") and u_ is not None:
+            alt_ = {"m/s": "ft/s" if k == "speed_of_sound" else "knot", "kg/m**3": "slug/ft**3", "1/s": "1/h", "m": "km" if k == "R" else "ft", "kg": "lbm", "m**2": "ft**2"}[u_]
+            v, u_ = convert_units(np.asarray(v, float), u_, alt_), alt_
+        ivc.add_output(k, val=v, units=u_)
     p.model.add_subsystem("ivc", ivc, promotes=["*"])
     if c["aero_only"]:
         p.model.add_subsystem("tp", TotalAeroPerformance(surfaces=surfaces, user_specified_Sref=c["user_sref"]), promotes_inputs=["*"])
@@ -121,15 +131,18 @@ def run_perf(c, o):
         p.run_model()
     g = lambda n: np.array(p.get_val("tp." + n)).copy()  # noqa: E731
     tags = ["nsurf=%d" % ns, "sym=" + "".join("S" if x else "F" for x in syms), "user_sref" if c["user_sref"] else "summed_sref", "aero_only" if c["aero_only"] else "aerostruct"]
+    if c.get("units"):
+        tags.append("inputs_in_other_units")
     o.tags = tags
+    U = 1e-7 if c.get("units") else 0.0  # the framework's unit-conversion factors carry about nine digits
     SCL = sum(d["CL"] * d["S_ref"] for d in data)
     SCD = sum(d["CD"] * d["S_ref"] for d in data)
     if not c["user_sref"]:
-        o.close("perf/S_ref_total", g("S_ref_total"), Stot, rtol=1e-13)
-    o.close("perf/CL_area_weighted", g("CL"), SCL / Stot, rtol=1e-12, atol=1e-15)
-    o.close("perf/CD_area_weighted", g("CD"), SCD / Stot, rtol=1e-12)
-    o.close("perf/L_is_qSCL", g("L"), q * Stot * (SCL / Stot), rtol=1e-12, atol=1e-12)
-    o.close("perf/D_is_qSCD", g("D"), q * Stot * (SCD / Stot), rtol=1e-12)
+        o.close("perf/S_ref_total", g("S_ref_total"), Stot, rtol=max(1e-13, U))
+    o.close("perf/CL_area_weighted", g("CL"), SCL / Stot, rtol=max(1e-12, U), atol=1e-15)
+    o.close("perf/CD_area_weighted", g("CD"), SCD / Stot, rtol=max(1e-12, U))
+    o.close("perf/L_is_qSCL", g("L"), q * Stot * (SCL / Stot), rtol=max(1e-12, U), atol=1e-12)
+    o.close("perf/D_is_qSCD", g("D"), q * Stot * (SCD / Stot), rtol=max(1e-12, U))
     # moment about the cg and CM
     cg_used = g("cg") if not c["aero_only"] else np.array(fl["cg"])
     Mt = np.zeros(3)
@@ -145,21 +158,21 @@ def run_perf(c, o):
     pc = 0.5 * (d0["chords"][1:] + d0["chords"][:-1])
     MAC = (pc**2 * d0["widths"]).sum() / d0["S_ref"] * (2.0 if syms[0] else 1.0)
     Mname = "moment.M" if not c["aero_only"] else "moment.M"
-    o.close("perf/M", g(Mname), Mt, rtol=1e-11, scale=mscale)
-    o.close("perf/CM", g("CM"), Mt / (q * Stot * MAC), rtol=1e-11, scale=mscale / (q * Stot * MAC))
+    o.close("perf/M", g(Mname), Mt, rtol=max(1e-11, U), scale=mscale)
+    o.close("perf/CM", g("CM"), Mt / (q * Stot * MAC), rtol=max(1e-11, U), scale=mscale / (q * Stot * MAC))
     if not c["aero_only"]:
         ms = sum(d["structural_mass"] for d in data)
         CLt, CDt = SCL / Stot, SCD / Stot
         fb = (fl["W0"] + ms) * (np.exp(fl["R"] * fl["CT"] / fl["speed_of_sound"] / fl["Mach_number"] * CDt / CLt) - 1)
-        o.close("perf/breguet", g("fuelburn"), fb, rtol=1e-11)
+        o.close("perf/breguet", g("fuelburn"), fb, rtol=max(1e-11, U))
         W = (ms + fb + fl["W0"]) * G0 * fl["load_factor"]
-        o.close("perf/total_weight", g("total_weight"), W, rtol=1e-11)
-        o.close("perf/L_equals_W", g("L_equals_W"), 1 - q * SCL / W, rtol=1e-11, atol=1e-12)
+        o.close("perf/total_weight", g("total_weight"), W, rtol=max(1e-11, U))
+        o.close("perf/L_equals_W", g("L_equals_W"), 1 - q * SCL / W, rtol=max(1e-11, U), atol=1e-12)
         if c["lw"]:
-            o.close("perf/L_equals_W_zero_iff_L_eq_W", g("L_equals_W"), 0.0, rtol=0, atol=1e-10, what="lift equals weight by construction")
-            o.close("perf/L_equals_W_zero_iff_L_eq_W", g("L"), g("total_weight"), rtol=1e-10)
+            o.close("perf/L_equals_W_zero_iff_L_eq_W", g("L_equals_W"), 0.0, rtol=0, atol=max(1e-10, U), what="lift equals weight by construction")
+            o.close("perf/L_equals_W_zero_iff_L_eq_W", g("L"), g("total_weight"), rtol=max(1e-10, U))
         cgm = (fl["W0"] * fl["empty_cg"] + sum(d["structural_mass"] * d["cg_location"] for d in data)) / (fl["W0"] + ms)
-        o.close("perf/cg", g("cg"), cgm, rtol=1e-11, scale=3.0)
+        o.close("perf/cg", g("cg"), cgm, rtol=max(1e-11, U), scale=3.0)
     o.nontrivial = True
 
 
@@ -250,6 +263,33 @@ def run_atmos(c, o):
     o.true("atmos/continuity", not bad, "isolated jump in the atmosphere outputs at altitude %s ft" % (hs[bad[0]] if bad else None))
     # pressure and density decrease monotonically with altitude
     o.true("atmos/monotone_P_rho", bool(np.all(np.diff(P) < 0) and np.all(np.diff(rho) < 0)), "pressure/density not decreasing with altitude")
+    # history on the same problem: altitude and Mach number changed one at a time (a Mach sweep at one flight level, a climb at one
+    # Mach number); at every step the identities hold and the outputs equal those of a fresh problem at the same point
+    hrng = np.random.default_rng(int(c["lo_frac"] * 1e6) + 17)
+    h_, m_ = float(hs[len(hs) // 2]), float(c["Mach"])
+    for step in range(12):
+        if step % 3 == 0:
+            h_ = float(hrng.uniform(a0, a1))
+        else:
+            m_ = float(np.round(hrng.uniform(0.1, 0.95), 3))
+        p.set_val("altitude", h_, units="ft")
+        p.set_val("Mach_number", m_)
+        p.run_model()
+        live = {n: float(np.ravel(p.get_val(n))[0]) for n in ("T", "P", "rho", "speed_of_sound", "mu", "v", "re")}
+        f = om.Problem(reports=False)
+        iv = om.IndepVarComp()
+        iv.add_output("altitude", val=h_, units="ft")
+        iv.add_output("Mach_number", val=m_)
+        f.model.add_subsystem("ivc", iv, promotes=["*"])
+        f.model.add_subsystem("atmos", AtmosGroup(), promotes=["*"])
+        with warnings.catch_warnings():
+            warnings.simplefilter("ignore")
+            f.setup()
+            f.run_model()
+        fresh = {n: float(np.ravel(f.get_val(n))[0]) for n in live}
+        o.close("atmos/history_equals_fresh", [live[n] for n in live], [fresh[n] for n in live], rtol=1e-13, scale=None,
+                what="atmosphere outputs after step %d of a history (altitude %.1f ft, Mach %.3f) vs a fresh problem" % (step, h_, m_), tags=["history"])
+        o.close("atmos/v_is_M_a", live["v"], m_ * live["speed_of_sound"], rtol=1e-12, tags=["history"])
     o.nontrivial = True
     o.info = dict(alt_range=[float(a0), float(a1)], n=len(hs))
 
